@@ -14,7 +14,7 @@ from __future__ import annotations
 import os
 
 from .. import common, drive, gen, invariants, xf
-from ..model import Row
+from ..model import Form, Row
 
 PROP = "C02"
 LEVEL = "exploration"
@@ -49,9 +49,11 @@ def special_form(rng, i):
         tops = [r for r in f.survey if r.kind == "q" and (r.type or "").split(" ")[0] in ("text", "integer")]
         for r in tops[:2]:
             r.cells["save_to"] = "p_" + str(abs(hash(r.name)) % 97)
-    elif k == 2:  # actions
-        f.survey.append(Row("q", "start-geopoint", "sg" + str(i), {}))
-        f.survey.append(Row("q", "background-audio", "ba" + str(i), {}))
+    elif k == 2:  # actions: at top level, and below groups and repeats (their ref is an absolute path like any other)
+        secs_ = [r for r, a in f.walk() if r.is_section()]
+        for row in (Row("q", "start-geopoint", "sg" + str(i), {}), Row("q", "background-audio", "ba" + str(i), {})):
+            tgt = rng.choice(secs_ + [None, None]) if secs_ else None
+            (tgt.children if tgt is not None else f.survey).append(row)
     return f
 
 
@@ -124,10 +126,37 @@ def check_output(ctx, o, form, klass, sig):
         ctx.viol(f"{klass}:{key}" if klass == "collision" else key, f"[{klass}] {what}", common.witness(form, klass=klass))
 
 
+def deep_forms(ctx):
+    """Chains of 3..70 nested groups/repeats with, at the bottom, everything that generates helper nodes and actions: paths are as long as the nesting is deep."""
+    for k, depth in enumerate([3, 12, 24, 31, 32, 33, 34, 40, 55, 70]):
+        if not ctx.mine(k):
+            continue
+        rng = ctx.rng("deep", depth)
+        bottom = [Row("q", "text", "src", {"label": "S"}), Row("q", "select_one l1 or_other", "sel", {"label": "Sel"}, meta={"or_other": True}),
+                  Row("repeat", "begin repeat", "cnt_rep", {"label": "R", "repeat_count": "${src} + 1"}, [Row("q", "text", "inrep", {"label": "I", "default": "now()"})]),
+                  Row("q", "calculate", "calc", {"calculation": "${src} + 1", "trigger": "${src}"}), Row("q", "start-geopoint", "sgp", {})]
+        node = bottom
+        for lvl in range(depth, 0, -1):
+            kind = "repeat" if rng.random() < 0.2 else "group"
+            node = [Row(kind, f"begin {kind}", f"lvl{lvl}", {"label": f"L{lvl}"}, node)]
+        f = Form()
+        f.survey = node
+        f.choices = {"l1": [{"name": "a", "label": "A"}]}
+        o = drive.convert_form(f)
+        ctx.ctr("deep_forms")
+        if not o.ok:
+            ctx.ctr("rejected:deep")
+            if not o.exc_is_pyxform:
+                ctx.viol(f"deep-nesting:internal-exception:{o.exc_type}", f"nesting depth {depth}: {o.brief()[:200]}", common.witness(f, klass="deep"))
+            continue
+        check_output(ctx, o, f, "deep", f"deep|{depth}")
+
+
 def run_shard(ctx):
     from ..hooks import install_xpath_contract, counters
     install_xpath_contract()
     pl = plan(ctx.tier, ctx.seed)
+    deep_forms(ctx)
     for i in range(pl["n"]):
         if not ctx.mine(i):
             continue
